@@ -19,7 +19,7 @@ from collections import OrderedDict, deque
 from datetime import datetime
 from os.path import exists
 from queue import Queue
-from urllib.parse import quote
+from urllib.parse import quote_plus
 
 from .exceptions import (BertE_Exception, InternalException, JobFailure,
                          SilentException, TemplateException,
@@ -57,7 +57,7 @@ class BertE(JobDispatcher):
 
         self.git_repo = GitRepository(
             self.project_repo.git_url,
-            mask_pwd=quote(settings.robot_password)
+            mask_pwd=quote_plus(settings.robot_password)
         )
         self.tmpdir = self.git_repo.tmp_directory
         gwf.setup({key: True for key in settings.cmd_line_options})
